@@ -159,7 +159,7 @@ func c01Directed(r *hx.Run, w *W, ps *plans, i int, t int64) {
 		go func() { ch <- w.Cl.Do(rq) }()
 		return ch
 	}
-	inconclusive := func(why string) { r.Inconclusive("C01 directed " + why) }
+	inconclusive := func(why string) { r.InconclusiveCase("C01 directed " + why) }
 	// F
 	chF := async()
 	if !hx.WaitUntil(10*time.Second, func() bool { return w.Farm.InflightKey(key) == 1 }) {
@@ -264,7 +264,7 @@ func c01DirectedSlowFetch(r *hx.Run, w *W, ps *plans, i int, jump int64) {
 	}
 	start()
 	if !hx.WaitUntil(10*time.Second, func() bool { return w.Farm.InflightKey(key) == 1 }) {
-		r.Inconclusive("C01 slow fetch: fetcher not at origin")
+		r.InconclusiveCase("C01 slow fetch: fetcher not at origin")
 		return
 	}
 	base := w.Pts.Count("get.registered")
@@ -321,7 +321,7 @@ func c01DirectedLookup(r *hx.Run, w *W, ps *plans, i int, t int64) {
 	rq := hx.Req{Addr: w.Addr, Host: "c01.example", URI: uri}
 	first := w.Cl.Do(rq)
 	if first.Label != "fetching" {
-		r.Inconclusive("C01 directed lookup: first request not a fetch")
+		r.InconclusiveCase("C01 directed lookup: first request not a fetch")
 		return
 	}
 	overBefore := len(w.Farm.Overlaps())
@@ -330,7 +330,7 @@ func c01DirectedLookup(r *hx.Run, w *W, ps *plans, i int, t int64) {
 	go func() { ch1 <- w.Cl.Do(rq) }()
 	if !hold.WaitArrived(10 * time.Second) {
 		w.Pts.Disarm(hold)
-		r.Inconclusive("C01 directed lookup: request not held at disp.got")
+		r.InconclusiveCase("C01 directed lookup: request not held at disp.got")
 		<-ch1
 		return
 	}
@@ -339,7 +339,7 @@ func c01DirectedLookup(r *hx.Run, w *W, ps *plans, i int, t int64) {
 	go func() { ch2 <- w.Cl.Do(rq) }()
 	if !hx.WaitUntil(10*time.Second, func() bool { return w.Farm.InflightKey(key) == 1 }) {
 		hold.Release()
-		r.Inconclusive("C01 directed lookup: second request not at origin")
+		r.InconclusiveCase("C01 directed lookup: second request not at origin")
 		return
 	}
 	regBefore := w.Pts.Count("get.registered")
